@@ -340,6 +340,12 @@ func c13refcount(addrPort ...bool) zzmc.Scenario {
 					fail += "SECOND-CLOSE-RELEASED-SIBLING-REFERENCE "
 				}
 			})
+			s.Go("C1B", func() { // a second, overlapping Close of the same handle releases nothing more
+				_ = h1.Close()
+				if uc := underClosed(); uc && !h2closing {
+					fail += "OVERLAPPING-CLOSE-OF-ONE-HANDLE-RELEASED-THE-SIBLING'S-REFERENCE "
+				}
+			})
 			s.Go("W2", func() { // the sibling keeps working until its own close
 				_, w2err = h2.WriteTo([]byte("y"), dst)
 				if w2err != nil && !h2closing {
